@@ -23,6 +23,16 @@ CLAIMED["C11"] = {
             "agrees with the pinned model on that input. Regex engine agreement with the `regex` module is tested, not proved.",
     "design": "DESIGN.md §5 C11",
 }
+CLAIMED["C07"] = {
+    "text": "Coq theorems with the whole post-split pipeline (dedent, parser, transforms, renderer) universally quantified as BODY: "
+            "closed frontmatter is emitted literally (any characters except CR/LF inside lines; CRLF->LF the only change) followed by "
+            "BODY of the rest; the frontmatter never depends on the options; unclosed frontmatter is returned unchanged up to a final "
+            "newline and is a fixpoint. split_frontmatter tied by correspondence; exactness, independence and the unclosed fixpoint are "
+            "also evaluated on reformat_text for generated documents containing every str.splitlines boundary character.",
+    "note": "Two genuine defects found by this check were repaired in /repo (fix: d2c449d, e09ddfc) and the model follows the fixed code. "
+            "Independence is relative to BODY(body') with body' = the body as re-joined by the splitter (final newline dropped).",
+    "design": "DESIGN.md §5 C07",
+}
 PENDING_REASON = "check not built yet in this revision (work in progress; see DESIGN.md §7 staging)"
 
 def main():
